@@ -253,3 +253,173 @@ Proof.
   - unfold x_show, d_graph_names. destruct (sch _); reflexivity.
   - reflexivity.
 Qed.
+
+(* ------------------------------------------------------------------ locality: only consumed entries matter *)
+
+Definition agree (sch sch' : schedule) (lg : log) : Prop := forall id, In id lg -> sch id = sch' id.
+
+Lemma agree_incl : forall sch sch' a b, incl a b -> agree sch sch' b -> agree sch sch' a.
+Proof. intros sch sch' a b H A id Hin. apply A. apply H. exact Hin. Qed.
+
+Lemma sound_incl : forall sch d d' ok, sound sch d d' ok -> incl (d_log d) (d_log d').
+Proof. intros sch d d' ok [n [L _]] id Hin. rewrite L. apply in_or_app. left. exact Hin. Qed.
+
+Lemma in_snoc : forall (l : log) id, In id (l ++ [id]).
+Proof. intros. apply in_or_app. right. left. reflexivity. Qed.
+
+Lemma d_graph_local : forall sch sch' d n, agree sch sch' (d_log (snd (d_graph sch d n))) -> d_graph sch d n = d_graph sch' d n.
+Proof. intros sch sch' d n A. unfold d_graph in *. cbn [snd d_log] in A. rewrite (A _ (in_snoc _ _)). reflexivity. Qed.
+
+Lemma d_read_local : forall sch sch' d n, agree sch sch' (d_log (snd (d_read sch d n))) -> d_read sch d n = d_read sch' d n.
+Proof. intros sch sch' d n A. unfold d_read in *. cbn [snd d_log] in A. rewrite (A _ (in_snoc _ _)). reflexivity. Qed.
+
+Lemma d_new_graph_log : forall sch d n, d_log (snd (d_new_graph sch d n)) = d_log d ++ [next_id (d_log d) KNewGraph n].
+Proof. intros. unfold d_new_graph. destruct (is_fail _); [reflexivity|]. destruct (new_graph _ _); reflexivity. Qed.
+
+Lemma d_new_graph_local : forall sch sch' d n, agree sch sch' (d_log (snd (d_new_graph sch d n))) -> d_new_graph sch d n = d_new_graph sch' d n.
+Proof. intros sch sch' d n A. rewrite d_new_graph_log in A. unfold d_new_graph. rewrite (A _ (in_snoc _ _)). reflexivity. Qed.
+
+Lemma d_delete_graph_log : forall sch d n, d_log (snd (d_delete_graph sch d n)) = d_log d ++ [next_id (d_log d) KDeleteGraph n].
+Proof. intros. unfold d_delete_graph. destruct (is_fail _); [reflexivity|]. destruct (delete_graph _ _); reflexivity. Qed.
+
+Lemma d_delete_graph_local : forall sch sch' d n, agree sch sch' (d_log (snd (d_delete_graph sch d n))) -> d_delete_graph sch d n = d_delete_graph sch' d n.
+Proof. intros sch sch' d n A. rewrite d_delete_graph_log in A. unfold d_delete_graph. rewrite (A _ (in_snoc _ _)). reflexivity. Qed.
+
+Lemma d_write_log : forall add sch d n ts, d_log (snd (d_write add sch d n ts)) = d_log d ++ [next_id (d_log d) (if add then KAdd else KRemove) n].
+Proof. intros. unfold d_write. destruct (sch _); reflexivity. Qed.
+
+Lemma d_write_local : forall add sch sch' d n ts, agree sch sch' (d_log (snd (d_write add sch d n ts))) -> d_write add sch d n ts = d_write add sch' d n ts.
+Proof. intros add sch sch' d n ts A. rewrite d_write_log in A. unfold d_write. rewrite (A _ (in_snoc _ _)). reflexivity. Qed.
+
+Lemma d_graph_names_log : forall sch d, d_log (snd (d_graph_names sch d)) = d_log d ++ [next_id (d_log d) KGraphNames []].
+Proof. intros. unfold d_graph_names. destruct (sch _); reflexivity. Qed.
+
+Lemma d_graph_names_local : forall sch sch' d, agree sch sch' (d_log (snd (d_graph_names sch d))) -> d_graph_names sch d = d_graph_names sch' d.
+Proof. intros sch sch' d A. rewrite d_graph_names_log in A. unfold d_graph_names. rewrite (A _ (in_snoc _ _)). reflexivity. Qed.
+
+Lemma x_update_local : forall add sch sch' ts gbs d,
+  agree sch sch' (d_log (snd (x_update add sch d ts gbs))) -> x_update add sch d ts gbs = x_update add sch' d ts gbs.
+Proof.
+  intros add sch sch' ts gbs. induction gbs as [|g r IH]; intros d A; [reflexivity|]. cbn [x_update] in *.
+  destruct (d_graph sch d g) as [okg d1] eqn:E1.
+  destruct (if okg then d_write add sch d1 g ts else (false, d1)) as [ok1 d2] eqn:E2.
+  destruct (x_update add sch d2 ts r) as [ok2 d3] eqn:E3. cbn [snd] in A.
+  assert (I3 : incl (d_log d2) (d_log d3)) by (eapply sound_incl; eapply x_update_sound; exact E3).
+  assert (I2 : incl (d_log d1) (d_log d2)).
+  { destruct okg; [eapply sound_incl; eapply d_write_sound; exact E2 | inversion E2; subst; apply incl_refl]. }
+  assert (X1 : d_graph sch d g = d_graph sch' d g).
+  { apply d_graph_local. rewrite E1. cbn [snd]. eapply agree_incl; [|exact A]. eapply incl_tran; eassumption. }
+  rewrite <- X1, E1.
+  assert (X2 : (if okg then d_write add sch d1 g ts else (false, d1)) = (if okg then d_write add sch' d1 g ts else (false, d1))).
+  { destruct okg; [|reflexivity]. apply d_write_local. rewrite E2. cbn [snd]. eapply agree_incl; [exact I3 | exact A]. }
+  rewrite <- X2, E2. rewrite <- (IH d2) by (rewrite E3; exact A). rewrite E3. reflexivity.
+Qed.
+
+Lemma x_init_local : forall sch sch' gs d, agree sch sch' (d_log (snd (x_init sch d gs))) -> x_init sch d gs = x_init sch' d gs.
+Proof.
+  intros sch sch' gs. induction gs as [|g r IH]; intros d A; [reflexivity|]. cbn [x_init] in *.
+  destruct (d_graph sch d g) as [okg d1] eqn:E1.
+  assert (X1 : d_graph sch d g = d_graph sch' d g).
+  { apply d_graph_local. rewrite E1. cbn [snd]. destruct okg; [|exact A].
+    eapply agree_incl; [|exact A]. destruct (x_init sch d1 r) as [ok d2] eqn:E. cbn [snd]. eapply sound_incl. eapply x_init_sound. exact E. }
+  rewrite <- X1, E1. destruct okg; [apply IH; exact A | reflexivity].
+Qed.
+
+Lemma x_reads_local : forall sch sch' gs d, agree sch sch' (d_log (snd (x_reads sch d gs))) -> x_reads sch d gs = x_reads sch' d gs.
+Proof.
+  intros sch sch' gs. induction gs as [|g r IH]; intros d A; [reflexivity|]. cbn [x_reads] in *.
+  destruct (d_read sch d g) as [okg d1] eqn:E1.
+  assert (X1 : d_read sch d g = d_read sch' d g).
+  { apply d_read_local. rewrite E1. cbn [snd]. destruct okg; [|exact A].
+    eapply agree_incl; [|exact A]. destruct (x_reads sch d1 r) as [ok d2] eqn:E. cbn [snd]. eapply sound_incl. eapply x_reads_sound. exact E. }
+  rewrite <- X1, E1. destruct okg; [apply IH; exact A | reflexivity].
+Qed.
+
+Lemma x_create_local : forall sch sch' gs d, agree sch sch' (d_log (snd (x_create sch d gs))) -> x_create sch d gs = x_create sch' d gs.
+Proof.
+  intros sch sch' gs. induction gs as [|g r IH]; intros d A; [reflexivity|]. cbn [x_create] in *.
+  destruct (d_new_graph sch d g) as [ok1 d1] eqn:E1. destruct (x_create sch d1 r) as [ok2 d2] eqn:E2. cbn [snd] in A.
+  assert (X1 : d_new_graph sch d g = d_new_graph sch' d g).
+  { apply d_new_graph_local. rewrite E1. cbn [snd]. eapply agree_incl; [|exact A]. eapply sound_incl. eapply x_create_sound. exact E2. }
+  rewrite <- X1, E1. rewrite <- (IH d1) by (rewrite E2; exact A). rewrite E2. reflexivity.
+Qed.
+
+Lemma x_drop_local : forall sch sch' gs d, agree sch sch' (d_log (snd (x_drop sch d gs))) -> x_drop sch d gs = x_drop sch' d gs.
+Proof.
+  intros sch sch' gs. induction gs as [|g r IH]; intros d A; [reflexivity|]. cbn [x_drop] in *.
+  destruct (d_delete_graph sch d g) as [ok1 d1] eqn:E1. destruct (x_drop sch d1 r) as [ok2 d2] eqn:E2. cbn [snd] in A.
+  assert (X1 : d_delete_graph sch d g = d_delete_graph sch' d g).
+  { apply d_delete_graph_local. rewrite E1. cbn [snd]. eapply agree_incl; [|exact A]. eapply sound_incl. eapply x_drop_sound. exact E2. }
+  rewrite <- X1, E1. rewrite <- (IH d1) by (rewrite E2; exact A). rewrite E2. reflexivity.
+Qed.
+
+Lemma writer_local : forall add bulk sch sch' outs sent d pending okacc,
+  agree sch sch' (d_log (snd (writer add bulk sch d outs sent pending okacc))) ->
+  writer add bulk sch d outs sent pending okacc = writer add bulk sch' d outs sent pending okacc.
+Proof.
+  intros add bulk sch sch' outs sent. induction sent as [|t r IH]; intros d pending okacc A; [reflexivity|]. cbn [writer] in *.
+  destruct (bulk <=? length (pending ++ [t])); [|apply IH; exact A].
+  destruct (x_update add sch d (pending ++ [t]) outs) as [ok d1] eqn:E.
+  assert (X : x_update add sch d (pending ++ [t]) outs = x_update add sch' d (pending ++ [t]) outs).
+  { apply x_update_local. rewrite E. cbn [snd]. eapply agree_incl; [|exact A].
+    destruct (writer add bulk sch d1 outs r [] (okacc && ok)) as [[p' ok'] d'] eqn:W. cbn [snd].
+    apply writer_sound in W. destruct W as [S _]. eapply sound_incl. exact S. }
+  rewrite <- X, E. apply IH. exact A.
+Qed.
+
+Theorem xexec_local : forall bulk sch sch' d s,
+  agree sch sch' (d_log (snd (xexec bulk sch d s))) -> xexec bulk sch d s = xexec bulk sch' d s.
+Proof.
+  intros bulk sch sch' d s A. unfold xexec in *. destruct (static_ok s); cbn [negb] in *; [|reflexivity].
+  destruct s.
+  - destruct (x_create sch d gs) as [ok d1] eqn:E. cbn [snd] in A. rewrite <- (x_create_local sch sch' gs d) by (rewrite E; exact A). rewrite E. reflexivity.
+  - destruct (x_drop sch d gs) as [ok d1] eqn:E. cbn [snd] in A. rewrite <- (x_drop_local sch sch' gs d) by (rewrite E; exact A). rewrite E. reflexivity.
+  - destruct (x_update true sch d ts outs) as [ok d1] eqn:E. cbn [snd] in A. rewrite <- (x_update_local true sch sch' ts outs d) by (rewrite E; exact A). rewrite E. reflexivity.
+  - destruct (x_update false sch d ts ins) as [ok d1] eqn:E. cbn [snd] in A. rewrite <- (x_update_local false sch sch' ts ins d) by (rewrite E; exact A). rewrite E. reflexivity.
+  - unfold x_construct in *.
+    destruct (x_init sch d (ins ++ outs)) as [ok d1] eqn:E1.
+    assert (S1 := x_init_sound _ _ _ _ _ E1).
+    destruct ok; cbn [negb] in *.
+    2:{ rewrite <- (x_init_local sch sch' (ins ++ outs) d) by (rewrite E1; exact A). rewrite E1. reflexivity. }
+    destruct (x_reads sch d1 (q_reads q)) as [okr d2] eqn:E2. assert (S2 := x_reads_sound _ _ _ _ _ E2).
+    destruct okr; cbn [negb] in *.
+    2:{ rewrite <- (x_init_local sch sch' (ins ++ outs) d) by (rewrite E1; cbn [snd]; eapply agree_incl; [eapply sound_incl; exact S2 | exact A]).
+        rewrite E1. cbn [negb]. rewrite <- (x_reads_local sch sch' (q_reads q) d1) by (rewrite E2; exact A). rewrite E2. reflexivity. }
+    destruct (q_ok q); cbn [negb] in *.
+    2:{ rewrite <- (x_init_local sch sch' (ins ++ outs) d) by (rewrite E1; cbn [snd]; eapply agree_incl; [eapply sound_incl; exact S2 | exact A]).
+        rewrite E1. cbn [negb]. rewrite <- (x_reads_local sch sch' (q_reads q) d1) by (rewrite E2; exact A). rewrite E2. reflexivity. }
+    destruct (produce _ _ _ _ _) as [sent okp].
+    destruct (writer add bulk sch d2 outs sent [] true) as [[pending okw] d3] eqn:E3.
+    assert (S3 : sound sch d2 d3 okw) by (apply writer_sound in E3; tauto).
+    destruct (if is_empty pending then (true, d3) else x_update add sch d3 pending outs) as [okf d4] eqn:E4.
+    assert (S4 : sound sch d3 d4 okf).
+    { destruct (is_empty pending); [inversion E4; subst; apply sound_refl | eapply x_update_sound; exact E4]. }
+    assert (A4 : agree sch sch' (d_log d4)) by (destruct okp; exact A).
+    assert (A3 : agree sch sch' (d_log d3)) by (eapply agree_incl; [eapply sound_incl; exact S4 | exact A4]).
+    assert (A2 : agree sch sch' (d_log d2)) by (eapply agree_incl; [eapply sound_incl; exact S3 | exact A3]).
+    assert (A1 : agree sch sch' (d_log d1)) by (eapply agree_incl; [eapply sound_incl; exact S2 | exact A2]).
+    rewrite <- (x_init_local sch sch' (ins ++ outs) d) by (rewrite E1; exact A1). rewrite E1. cbn [negb].
+    rewrite <- (x_reads_local sch sch' (q_reads q) d1) by (rewrite E2; exact A2). rewrite E2. cbn [negb].
+    rewrite <- (writer_local add bulk sch sch' outs sent d2 [] true) by (rewrite E3; exact A3). rewrite E3.
+    assert (X4 : (if is_empty pending then (true, d3) else x_update add sch d3 pending outs) =
+                 (if is_empty pending then (true, d3) else x_update add sch' d3 pending outs)).
+    { destruct (is_empty pending); [reflexivity|]. apply x_update_local. rewrite E4. exact A4. }
+    rewrite <- X4, E4. reflexivity.
+  - unfold x_select in *.
+    destruct (x_init sch d ins) as [ok d1] eqn:E1. destruct ok; cbn [negb] in *.
+    2:{ rewrite <- (x_init_local sch sch' ins d) by (rewrite E1; exact A). rewrite E1. reflexivity. }
+    destruct (x_reads sch d1 (q_reads q)) as [okr d2] eqn:E2. assert (S2 := x_reads_sound _ _ _ _ _ E2).
+    assert (A2 : agree sch sch' (d_log d2)) by (destruct okr; cbn [negb] in A; [destruct (q_ok q)|]; exact A).
+    rewrite <- (x_init_local sch sch' ins d) by (rewrite E1; cbn [snd]; eapply agree_incl; [eapply sound_incl; exact S2 | exact A2]).
+    rewrite E1. cbn [negb]. rewrite <- (x_reads_local sch sch' (q_reads q) d1) by (rewrite E2; exact A2). rewrite E2. reflexivity.
+  - unfold x_show in *. destruct (d_graph_names sch d) as [[ns ok] d1] eqn:E.
+    assert (A1 : agree sch sch' (d_log d1)) by (destruct ok; exact A).
+    rewrite <- (d_graph_names_local sch sch' d) by (rewrite E; exact A1). rewrite E. reflexivity.
+  - reflexivity.
+Qed.
+
+(* a schedule none of whose consumed entries is a failure behaves exactly like the driver that never fails *)
+Theorem fexec_no_consumed_failure : forall bulk sch st s,
+  (forall id, In id (d_log (snd (fexec bulk sch st s))) -> sch id = FOk) ->
+  fexec bulk sch st s = fexec bulk no_faults st s.
+Proof. intros bulk sch st s H. unfold fexec in *. apply xexec_local. intros id Hin. rewrite (H id Hin). reflexivity. Qed.
